@@ -109,11 +109,14 @@ pub mod sample {
         for i in 0..coeff_count {
             let sampled = cbd(rng);
             for j in 0..coeff_modulus_size {
+                // reduce |sampled| first: a modulus may be smaller than the error bound 21
+                let q = coeff_modulus[j].value();
+                let magnitude = sampled.unsigned_abs() as u64 % q;
                 destination[i + j * coeff_count] = 
-                    if sampled >= 0 {
-                        sampled as u64
+                    if sampled >= 0 || magnitude == 0 {
+                        magnitude
                     } else {
-                        coeff_modulus[j].value() - sampled.unsigned_abs() as u64
+                        q - magnitude
                     };
             }
         }
